@@ -35,6 +35,7 @@ def required(tier):
         "glr.multi_prefix_inputs": 1000,
         "lr.trees_judged": 2000,
         "lr.rejections_agree": 1000,
+        "lr.returned_positions_judged": 800,
         "with_continuation": 2000,
         "grammars.with_priorities": 100,
         "glr.root_spans_checked": 5000,
@@ -79,6 +80,7 @@ def one_grammar(ctx, gmon, g, alphabet, maxlen):
                 parsers.append(("GLR-ld", pgx.glr(pgx.grammar(text), consume_input=False, lexical_disambiguation=True)))
                 try:
                     parsers.append(("LR", pgx.lr(pgx.grammar(text), consume_input=False, build_tree=True)))
+                    parsers.append(("LR-pos", pgx.lr(pgx.grammar(text), consume_input=False, build_tree=True, return_position=True)))
                 except Exception:  # noqa: BLE001
                     pass
     except pgx.CaseTimeout:
@@ -119,7 +121,7 @@ def check(ctx, gmon, g, pkeys, parser, name, case, inp, ends, ref, chart):
         del LMON.events[:]
     try:
         with pgx.watchdog(30):
-            if name == "LR":
+            if name in ("LR", "LR-pos"):
                 kind, val = pgx.outcome(parser.parse, inp)
             else:
                 o = glrobs.parse_glr(parser, inp)
@@ -133,7 +135,7 @@ def check(ctx, gmon, g, pkeys, parser, name, case, inp, ends, ref, chart):
     ctx.case(key, nontrivial, sample={"grammar": case["grammar"], "parser": name, "input": inp, "sentence_prefix_ends": ends})
     if continuation:
         ctx.count("with_continuation")
-    if name == "LR":
+    if name in ("LR", "LR-pos"):
         if kind == "exc":
             import parglare
 
@@ -145,6 +147,19 @@ def check(ctx, gmon, g, pkeys, parser, name, case, inp, ends, ref, chart):
             ctx.count("lr.rejections_agree" if not ref else "lr.rejects_although_prefix_exists_not_judged")
             return
         ctx.count("lr.trees_judged")
+        if name == "LR-pos":
+            # return_position=True: (tree, position); the position is where the parsed prefix
+            # ends, at most the layout after its last token further
+            if not (isinstance(val, tuple) and len(val) == 2):
+                ctx.violation("lr-return-position-shape", case, "return_position=True returned %s" % type(val).__name__)
+                return
+            val, pos = val
+            leaves = pgx.tree_leaves(val)
+            last_end = leaves[-1].end_position if leaves else 0
+            ctx.count("lr.returned_positions_judged")
+            if not (type(pos) is int and last_end <= pos <= cfg.skip_ws(inp, last_end)):
+                ctx.violation("lr-returned-position-is-not-the-prefix-end", case, "returned position %s, the last token of the returned tree ends at %s (layout up to %s)" % (pos, last_end, cfg.skip_ws(inp, last_end)))
+                return
         form = pgx.tree_form(val, pkeys)
         if form not in ref:
             ctx.violation("lr-result-is-not-a-sentence-prefix", case, "Parser(consume_input=False) returned %s which is not a derivation of a sentence prefix (prefix ends %s)" % (str(form)[:300], ends))
@@ -253,6 +268,8 @@ def replay(case, ctx):
             parser = pgx.glr(pg, consume_input=False, custom_token_recognition=lambda head, get_tokens: get_tokens())
         elif name == "GLR-ld":
             parser = pgx.glr(pg, consume_input=False, lexical_disambiguation=True)
+        elif name == "LR-pos":
+            parser = pgx.lr(pg, consume_input=False, build_tree=True, return_position=True)
         else:
             parser = pgx.lr(pg, consume_input=False, build_tree=True)
         inp = case["input"]
